@@ -702,7 +702,7 @@ def b_spline_basis(
 
     # wrap periodic values
     if periodic:
-        x = x % (1 + 1e-9)
+        x = np.minimum(x % (1 + 1e-9), 1.0)
 
     # append 0 and 1 in order to get derivatives for extrapolation
     x = np.r_[x, 0.0, 1.0]
